@@ -124,7 +124,8 @@ impl<T: Iterator<Item = Token>> TryFrom<&mut Peekable<T>>
                 (None, None) | (Some(LitOrRef::Lit(0)), None) | (None, Some(LitOrRef::Lit(MAX)))
             );
 
-            if any {
+            // `(0..MAX, ...)` has an open extension root but is extensible nonetheless
+            if any && iter.peek_is_separator_eq(')') {
                 iter.next_separator_eq_or_err(')')?;
                 Ok(Size::Any)
             } else {
